@@ -39,7 +39,6 @@ import (
 	"github.com/sassoftware/relic/v8/lib/pkcs7"
 	"github.com/sassoftware/relic/v8/lib/pkcs9"
 	"github.com/sassoftware/relic/v8/signers"
-	"github.com/sassoftware/relic/v8/zzverif/bridge"
 
 	"verif/mc"
 	"verif/relicx"
@@ -265,7 +264,7 @@ func copyFile(src, dst string) []byte {
 // {valid, http-500, never answers} under a 1 s client timeout: an authority
 // that holds the connection open is one more unacceptable answer, and the
 // caller's own context is still live when the client gives up on it.
-func signPhase(srv *httptest.Server, dir string, hang bool) {
+func signTasks(hang bool) []func() {
 	nurlsList := []int{1, 2}
 	if run.Thorough() {
 		nurlsList = []int{1, 2, 3}
@@ -280,8 +279,26 @@ func signPhase(srv *httptest.Server, dir string, hang bool) {
 			}
 		}
 	}
+	var tasks []func()
 	for _, p := range usePaths {
 		for _, nurls := range nurlsList {
+			p, nurls := p, nurls
+			tasks = append(tasks, func() { signPhase(p, nurls, hang) })
+		}
+	}
+	return tasks
+}
+
+// signPhase runs in a process of its own: relic builds its timestamp client
+// once per process from the configuration, so every (attach path, URL count)
+// configuration gets a fresh process instead of the harness reaching into the
+// client's private state.
+func signPhase(p attachPath, nurls int, hang bool) {
+	srv, dir := startAuthority(), scratchDir()
+	defer srv.Close()
+	defer os.RemoveAll(dir)
+	{
+		{
 			cfg := relicx.BaseConfig("file")
 			cfg.Keys[p.key()].Timestamp = true
 			cfg.Timestamp = &config.TimestampConfig{Timeout: 10}
@@ -293,7 +310,6 @@ func signPhase(srv *httptest.Server, dir string, hang bool) {
 				cfg.Timestamp.MsURLs = append(cfg.Timestamp.MsURLs, fmt.Sprintf("%s/ms%d", srv.URL, i))
 			}
 			relicx.Use(cfg)
-			bridge.ResetTimestamper()
 			tok, err := relicx.OpenTokenByKey(cfg, p.key())
 			if err != nil {
 				panic(err)
@@ -465,7 +481,86 @@ func pemCerts(path string) []*x509.Certificate {
 	return out
 }
 
-func verifyPhase(dir string) {
+func scratchDir() string {
+	dir, err := os.MkdirTemp("", "c10-")
+	if err != nil {
+		panic(err)
+	}
+	return dir
+}
+
+// constructionPhase: the timestamp client cannot be built when the first
+// request needs it (its CA bundle is not on disk yet); later it can. A key that
+// asks for timestamps never yields a signature without one: every request
+// either fails or carries a matching timestamp.
+func constructionPhase() {
+	srv, dir := startAuthority(), scratchDir()
+	defer srv.Close()
+	defer os.RemoveAll(dir)
+	srvMu.Lock()
+	asked := 0
+	current = func(idx int, legacy bool, body []byte) (int, []byte, bool) {
+		asked++
+		return answer(behaviours[0], idx, legacy, body)
+	}
+	srvMu.Unlock()
+	ca := filepath.Join(dir, "tsa-ca.pem")
+	cfg := relicx.BaseConfig("file")
+	cfg.Keys["rsaA"].Timestamp = true
+	cfg.Timestamp = &config.TimestampConfig{Timeout: 10, URLs: []string{srv.URL + "/u0"}, CaCert: ca}
+	relicx.Use(cfg)
+	tok, err := relicx.OpenTokenByKey(cfg, "rsaA")
+	if err != nil {
+		panic(err)
+	}
+	var hist []string
+	for i := 1; i <= 4; i++ {
+		if i == 3 {
+			// the bundle appears (any readable PEM bundle will do for a plain-http authority)
+			blob, err := os.ReadFile(filepath.Join(relicx.KeyDir, "root.crt"))
+			if err != nil {
+				panic(err)
+			}
+			os.WriteFile(ca, blob, 0o644)
+		}
+		in := filepath.Join(dir, "c.ps1")
+		out := filepath.Join(dir, "out-c.ps1")
+		os.Remove(out)
+		os.WriteFile(in, []byte(fmt.Sprintf("Write-Host 'request %d'\r\n", i)), 0o644)
+		before := asked
+		serr := relicx.SignStandalone(cfg, tok, relicx.SignReq{SigType: "ps", Key: "rsaA", Hash: crypto.SHA256, Flags: url.Values{}, In: in, Out: out})
+		run.Eval(1)
+		state := "CA bundle missing"
+		if i >= 3 {
+			state = "CA bundle present"
+		}
+		hist = append(hist, fmt.Sprintf("request %d (%s): err=%v, authority asked %d time(s)", i, state, serr != nil, asked-before))
+		desc := "timestamp client construction fails first, later succeeds: " + strings.Join(hist, "; ")
+		replay := map[string]any{"request": i}
+		run.Distinct(fmt.Sprintf("construction|%d", i))
+		if serr != nil {
+			if i >= 3 && i == 4 {
+				run.Violation("ts-construction:still-failing-after-the-cause-is-gone", desc+": "+serr.Error(), replay)
+			}
+			run.Outcome("construction:refused")
+			continue
+		}
+		sigs, verr := relicx.Verify(out, relicx.TrustOpts())
+		if verr != nil || len(sigs) == 0 {
+			run.Violation("ts-construction:output-does-not-verify", fmt.Sprintf("%s: %v", desc, verr), replay)
+			continue
+		}
+		if sigs[len(sigs)-1].X509Signature.CounterSignature == nil {
+			run.Violation("ts-construction:timestamp-silently-omitted", desc+": the key asks for timestamps, signing succeeded, the artifact carries none", replay)
+			continue
+		}
+		run.Outcome("construction:stamped")
+	}
+}
+
+func verifyPhase() {
+	dir := scratchDir()
+	defer os.RemoveAll(dir)
 	kd := relicx.KeyDir
 	inter := pemCerts(filepath.Join(kd, "inter.crt"))[0]
 	interKey := tsa.LoadKey(filepath.Join(kd, "inter.key"))
@@ -534,6 +629,11 @@ func verifyPhase(dir string) {
 		authOID bool
 	}
 	variants := []variant{{name: "none"}, {name: "valid", has: true}, {name: "valid(authenticode-oid)", has: true, authOID: true}, {name: "grafted-from-other-signature", has: true, grafted: true}}
+	// One set of trust options for every case, as `relic verify --cert ca.pem a b c`
+	// has for all its files, and the whole list judged twice, forwards and
+	// backwards: a verdict must not depend on what was verified before it.
+	shared := relicx.TrustOpts()
+	var cases []func(order string)
 	for _, lf := range leaves {
 		for _, v := range variants {
 			for _, ta := range tsas {
@@ -541,83 +641,93 @@ func verifyPhase(dir string) {
 					if !v.has && (ta.name != "trusted" || !at.Equal(attested[0])) {
 						continue
 					}
-					// build the signature with relic's builder (construction tool, not oracle)
-					sb := pkcs7.NewBuilder(rsaA, []*x509.Certificate{lf.cert, inter}, crypto.SHA256)
-					if err := sb.SetContentData(content); err != nil {
-						panic(err)
-					}
-					if err := sb.AddAuthenticatedAttribute(pkcs7.OidAttributeSigningTime, time.Now().UTC()); err != nil {
-						panic(err)
-					}
-					psd, err := sb.Sign()
-					if err != nil {
-						panic(err)
-					}
-					sigValue := psd.Content.SignerInfos[0].EncryptedDigest
-					if v.has {
-						over := sigValue
-						if v.grafted {
-							over = append([]byte("another signature value "), sigValue...)
+					lf, v, ta, at := lf, v, ta, at
+					cases = append(cases, func(order string) {
+						// build the signature with relic's builder (construction tool, not oracle)
+						sb := pkcs7.NewBuilder(rsaA, []*x509.Certificate{lf.cert, inter}, crypto.SHA256)
+						if err := sb.SetContentData(content); err != nil {
+							panic(err)
 						}
-						h := sha256.Sum256(over)
-						tokDER := ta.a.Token(tsa.TokenOpts{HashAlg: tsa.SHA256Alg(), Imprint: h[:], Nonce: big.NewInt(7), GenTime: at})
-						tok, err := pkcs7.Unmarshal(tokDER)
+						if err := sb.AddAuthenticatedAttribute(pkcs7.OidAttributeSigningTime, time.Now().UTC()); err != nil {
+							panic(err)
+						}
+						psd, err := sb.Sign()
 						if err != nil {
 							panic(err)
 						}
-						if v.authOID {
-							err = pkcs9.AddStampToSignedAuthenticode(&psd.Content.SignerInfos[0], *tok)
-						} else {
-							err = pkcs9.AddStampToSignedData(&psd.Content.SignerInfos[0], *tok)
+						sigValue := psd.Content.SignerInfos[0].EncryptedDigest
+						if v.has {
+							over := sigValue
+							if v.grafted {
+								over = append([]byte("another signature value "), sigValue...)
+							}
+							h := sha256.Sum256(over)
+							tokDER := ta.a.Token(tsa.TokenOpts{HashAlg: tsa.SHA256Alg(), Imprint: h[:], Nonce: big.NewInt(7), GenTime: at})
+							tok, err := pkcs7.Unmarshal(tokDER)
+							if err != nil {
+								panic(err)
+							}
+							if v.authOID {
+								err = pkcs9.AddStampToSignedAuthenticode(&psd.Content.SignerInfos[0], *tok)
+							} else {
+								err = pkcs9.AddStampToSignedData(&psd.Content.SignerInfos[0], *tok)
+							}
+							if err != nil {
+								panic(err)
+							}
 						}
+						blob, err := psd.Marshal()
 						if err != nil {
 							panic(err)
 						}
-					}
-					blob, err := psd.Marshal()
-					if err != nil {
-						panic(err)
-					}
-					p7 := filepath.Join(dir, "sig.p7s")
-					os.WriteFile(p7, blob, 0o644)
-					opts := relicx.TrustOpts()
-					opts.Content = contentPath
-					_, verr := relicx.Verify(p7, opts)
-					run.Eval(1)
-					within := func(t time.Time) bool { return !t.Before(lf.nb) && !t.After(lf.na) }
-					var want bool
-					switch {
-					case !v.has:
-						want = within(now)
-					case v.grafted:
-						want = false
-					default:
-						want = within(at) && ta.ok(at)
-					}
-					desc := fmt.Sprintf("leaf %s (valid %s..%s), token %s by authority %s attesting %s: relic verify+chain says %v", lf.name, lf.nb.Format("2006-01"), lf.na.Format("2006-01"), v.name, ta.name, at.Format("2006-01"), verr)
-					run.Distinct(fmt.Sprintf("%s|%s|%s|%s", lf.name, v.name, ta.name, at.Format("2006-01")))
-					if len(desc) > 0 && lf.name == "rsaA.expired.crt" && v.name == "valid" && ta.name == "trusted" {
-						run.Sample(desc)
-					}
-					if want && verr != nil {
-						run.Violation("ts-verify:valid-timestamped-signature-rejected:"+lf.name+":"+ta.name, desc, desc)
-					}
-					if !want && verr == nil {
-						why := "leaf-not-valid-at-attested-time"
+						p7 := filepath.Join(dir, "sig.p7s")
+						os.WriteFile(p7, blob, 0o644)
+						opts := shared
+						opts.Content = contentPath
+						_, verr := relicx.Verify(p7, opts)
+						run.Eval(1)
+						within := func(t time.Time) bool { return !t.Before(lf.nb) && !t.After(lf.na) }
+						var want bool
 						switch {
-						case v.grafted:
-							why = "grafted-token"
 						case !v.has:
-							why = "no-token-and-leaf-not-valid-now"
-						case !ta.ok(at):
-							why = "authority-chain-not-valid:" + ta.name
+							want = within(now)
+						case v.grafted:
+							want = false
+						default:
+							want = within(at) && ta.ok(at)
 						}
-						run.Violation("ts-verify:accepted:"+why, desc, desc)
-					}
-					run.Outcome(fmt.Sprintf("verify:%s:%v", v.name, verr == nil))
+						desc := fmt.Sprintf("[pass %s, one trust pool for all cases] leaf %s (valid %s..%s), token %s by authority %s attesting %s: relic verify+chain says %v", order, lf.name, lf.nb.Format("2006-01"), lf.na.Format("2006-01"), v.name, ta.name, at.Format("2006-01"), verr)
+						run.Distinct(fmt.Sprintf("%s|%s|%s|%s", lf.name, v.name, ta.name, at.Format("2006-01")))
+						if len(desc) > 0 && lf.name == "rsaA.expired.crt" && v.name == "valid" && ta.name == "trusted" {
+							run.Sample(desc)
+						}
+						if want && verr != nil {
+							run.Violation("ts-verify:valid-timestamped-signature-rejected:"+lf.name+":"+ta.name, desc, desc)
+						}
+						if !want && verr == nil {
+							why := "leaf-not-valid-at-attested-time"
+							switch {
+							case v.grafted:
+								why = "grafted-token"
+							case !v.has:
+								why = "no-token-and-leaf-not-valid-now"
+							case !ta.ok(at):
+								why = "authority-chain-not-valid:" + ta.name
+							}
+							run.Violation("ts-verify:accepted:"+why, desc, desc)
+						}
+						run.Outcome(fmt.Sprintf("verify:%s:%v", v.name, verr == nil))
+						_ = order
+					})
 				}
 			}
 		}
+	}
+	for _, c := range cases {
+		c("forward")
+	}
+	for i := len(cases) - 1; i >= 0; i-- {
+		cases[i]("backward")
 	}
 	_ = certloader.Certificate{}
 	_ = signers.VerifyOpts{}
@@ -726,15 +836,16 @@ func (m *fakeMemcache) serve(c net.Conn) {
 // Whatever the cache says, the artifact carries a token only if that token
 // matches this signature, and signing fails only if neither the cache nor the
 // authority offered an acceptable one.
-func cachePhase(srv *httptest.Server, dir string) {
+func cachePhase() {
+	srv, dir := startAuthority(), scratchDir()
+	defer srv.Close()
+	defer os.RemoveAll(dir)
 	mcache := startMemcache()
 	defer mcache.ln.Close()
 	cfg := relicx.BaseConfig("file")
 	cfg.Keys["rsaA"].Timestamp = true
 	cfg.Timestamp = &config.TimestampConfig{Timeout: 10, URLs: []string{srv.URL + "/u0"}, Memcache: []string{mcache.ln.Addr().String()}}
 	relicx.Use(cfg)
-	bridge.ResetTimestamper()
-	defer bridge.ResetTimestamper()
 	tok, err := relicx.OpenTokenByKey(cfg, "rsaA")
 	if err != nil {
 		panic(err)
@@ -895,19 +1006,18 @@ func main() {
 	relicx.Quiet()
 	log.SetOutput(io.Discard)
 	run = vlib.NewRun("C10", "model_checking")
-	dir, err := os.MkdirTemp("", "c10-")
-	if err != nil {
-		panic(err)
+	// one process per configuration of the (process-wide) timestamp client
+	tasks := append(signTasks(false), signTasks(true)...)
+	tasks = append(tasks, cachePhase, constructionPhase, verifyPhase)
+	if run.Fork(len(tasks)) {
+		run.Rule("sign side: every sequence of authority behaviours (16 for RFC 3161, 9 for the legacy protocol) over 1-2 (thorough 3) configured URLs, explored as a choice tree that ends at the first acceptable answer, x 8 attach paths (5 with an RSA key, 3 with ECDSA P-256), through the real pipeline and HTTP client against a loopback authority; verify side: 3 leaf validity windows x {no token, valid token under either OID, token grafted from another signature} x 4 authorities x 7 attested times, all cases under one shared trust pool and judged twice (list forwards, then backwards). states = executions; distinct_nontrivial = sign sequences with >=2 requests + verify cases. Hanging authorities: every sequence over {valid, http-500, never answers} for 2 (thorough 3) URLs under a 1 s client timeout, on one RFC 3161 and the legacy path. Timestamp cache: a loopback memcached owned by the harness; 7 cache contents for this signature's key x store accepts / refuses new entries x 3 authority answers, through the real gomemcache client")
+		run.Assume("acceptable = status granted / granted-with-mods, nonce echoed, imprint (algorithm and value) equal to the digest of this signature value, token signature valid under the embedded authority certificate")
+		run.Assume("the authority's tokens are built by verif/tsa (validated against `openssl ts -verify` at development time); a hanging authority holds the request open until the client's own timeout (1 s, the smallest configurable) closes it: the only real-time wait in this check; when a healthy authority misses that timeout too the sequence is reported as not judged, never as a violation")
+		run.Set("processes", len(tasks))
+		run.Finish()
+		return
 	}
-	defer os.RemoveAll(dir)
-	srv := startAuthority()
-	defer srv.Close()
-	signPhase(srv, dir, false)
-	signPhase(srv, dir, true)
-	cachePhase(srv, dir)
-	verifyPhase(dir)
-	run.Rule("sign side: every sequence of authority behaviours (16 for RFC 3161, 9 for the legacy protocol) over 1-2 (thorough 3) configured URLs, explored as a choice tree that ends at the first acceptable answer, x 8 attach paths (5 with an RSA key, 3 with ECDSA P-256), through the real pipeline and HTTP client against a loopback authority; verify side: 3 leaf validity windows x {no token, valid token under either OID, token grafted from another signature} x 4 authorities x 7 attested times. states = executions; distinct_nontrivial = sign sequences with >=2 requests + verify cases. Hanging authorities: every sequence over {valid, http-500, never answers} for 2 (thorough 3) URLs under a 1 s client timeout, on one RFC 3161 and the legacy path. Timestamp cache: a loopback memcached owned by the harness; 7 cache contents for this signature's key x store accepts / refuses new entries x 3 authority answers, through the real gomemcache client")
-	run.Assume("acceptable = status granted / granted-with-mods, nonce echoed, imprint (algorithm and value) equal to the digest of this signature value, token signature valid under the embedded authority certificate")
-	run.Assume("the authority's tokens are built by verif/tsa (validated against `openssl ts -verify` at development time); a hanging authority holds the request open until the client's own timeout (1 s, the smallest configurable) closes it: the only real-time wait in this check; when a healthy authority misses that timeout too the sequence is reported as not judged, never as a violation")
+	i, _ := vlib.ShardIndex()
+	tasks[i]()
 	run.Finish()
 }
